@@ -70,12 +70,13 @@ func C20(run *report.Run) {
 	var variants []variant
 	if run.Tier == "quick" {
 		variants = []variant{
-			{"p00001", "shared", 2, [][]string{{"echo", "echo"}, {"echo", "raw"}, {"echo", "spec"}, {"spec", "fail"}, {"echo", "fail"}, {"miss", "miss"}, {"echo", "miss"}}, 400000},
+			{"p00001", "shared", 2, [][]string{{"echo", "echo"}, {"echo", "raw"}, {"raw", "raw"}, {"echo", "spec"}, {"spec", "spec"}, {"spec", "fail"}, {"echo", "fail"}, {"miss", "miss"}, {"echo", "miss"}}, 400000},
 			{"p00002", "all", 1, [][]string{{"echo", "echo"}, {"echo", "raw"}}, 400000},
+			{"p00003", "shared", 1, [][]string{{"echo", "echo", "raw"}, {"echo", "spec", "fail"}}, 400000},
 		}
 	} else {
 		variants = []variant{
-			{"p00001", "shared", 3, [][]string{{"echo", "echo"}, {"echo", "raw"}, {"echo", "spec"}, {"spec", "fail"}, {"echo", "fail"}, {"miss", "miss"}, {"echo", "miss"}}, 3000000},
+			{"p00001", "shared", 3, [][]string{{"echo", "echo"}, {"echo", "raw"}, {"raw", "raw"}, {"echo", "spec"}, {"spec", "spec"}, {"spec", "fail"}, {"echo", "fail"}, {"miss", "miss"}, {"echo", "miss"}}, 3000000},
 			{"p00002", "all", 2, [][]string{{"echo", "echo"}, {"echo", "raw"}, {"raw", "raw"}}, 3000000},
 			{"p00003", "shared", 2, [][]string{{"echo", "echo", "echo"}, {"echo", "raw", "spec"}, {"echo", "echo", "fail"}}, 3000000},
 		}
